@@ -4,13 +4,15 @@
 #        ./run.sh replay <file>               re-execute a replay file
 set -u
 cd "$(dirname "$0")"
+HERE=$(pwd)
+export VERIF_DIR=$HERE
 export GOFLAGS=-mod=mod GOPROXY=off GOSUMDB=off GOTOOLCHAIN=local
 export GOMAXPROCS=${GOMAXPROCS:-16}
-BIN=/verif/.build/c4emc
+BIN=$HERE/.build/c4emc
 build() {
-  mkdir -p /verif/.build
-  cp /repo/go.sum /verif/mc/go.sum
-  (cd /verif/mc && go build -tags verif -o "$BIN" ./cmd/c4emc) || { echo "BUILD-ERROR: harness does not compile against /repo" >&2; exit 2; }
+  mkdir -p $HERE/.build
+  cp /repo/go.sum $HERE/mc/go.sum
+  (cd $HERE/mc && go build -tags verif -o "$BIN" ./cmd/c4emc) || { echo "BUILD-ERROR: harness does not compile against /repo" >&2; exit 2; }
 }
 case "${1:-}" in
   build) build ;;
